@@ -555,6 +555,9 @@ func run(cfg *lib.Config, res *lib.Result) {
 		cf.Prelude = lat.Oracle(pats, strs)
 		res.CorrFiles = append(res.CorrFiles, cf.WriteTo(cfg.Out, fmt.Sprintf("cases_assert_inst_%d", s)))
 	}
+
+	// ---- the types outside the lattice universe (ext.go)
+	runExt(cfg, res, rng, u)
 }
 
 // gAssert prints the observed outcome of an assertion; the classes come from the wording of the detail
@@ -690,9 +693,13 @@ func replayInputs(path string) []interface{} {
 }
 
 func replay(cfg *lib.Config, res *lib.Result) {
-	dcf, tcf, icf := newDescCases(), newATypeCases(), newAInstCases()
+	dcf, tcf, icf, ccf := newDescCases(), newATypeCases(), newAInstCases(), newCallableCases()
 	pats, strs := map[string]bool{}, map[string]bool{}
 	for _, in := range replayInputs(cfg.Replay) {
+		if replayExt(res, in, ccf, pats, strs) {
+			res.Evaluations++
+			continue
+		}
 		var x struct {
 			Kind string     `json:"kind"`
 			A    *lat.Spec  `json:"a"`
@@ -758,7 +765,7 @@ func replay(cfg *lib.Config, res *lib.Result) {
 	for _, c := range []struct {
 		cf   *lib.CasesFile
 		name string
-	}{{dcf, "cases_desc_replay"}, {tcf, "cases_assert_type_replay"}, {icf, "cases_assert_inst_replay"}} {
+	}{{dcf, "cases_desc_replay"}, {tcf, "cases_assert_type_replay"}, {icf, "cases_assert_inst_replay"}, {ccf, "cases_callable_replay"}} {
 		if len(c.cf.Cases) > 0 {
 			c.cf.Prelude = orc
 			res.CorrFiles = append(res.CorrFiles, c.cf.WriteTo(cfg.Out, c.name))
